@@ -152,6 +152,7 @@ pub fn run(ctx: &mut Ctx) {
     }
     ctx.extra.insert("cli_runs".into(), json!(ctx.traces));
     scale_family(ctx);
+    minimal_units(ctx);
 }
 
 /// One rule at scale: a program with n elements of the kind the rule looks at, valid or with the rule's
@@ -270,7 +271,91 @@ fn scale_family(ctx: &mut Ctx) {
     ctx.bounds.insert("scale_family".into(), json!(format!("{} rules x sizes {:?} x {{valid, fault at first / middle / last element}}", SCALE_RULES.len(), SCALE_SIZES)));
 }
 
+
+/// Units that hold nothing but the construct a rule is about: (name, text, expected code or "" for a valid unit).
+/// The worlds always declare an enumeration, a structure, callees, a configuration ...; here nothing else is declared.
+pub const MINIMAL_UNITS: &[(&str, &str, &str)] = &[
+    ("enum-default-undeclared", "TYPE T : (A, B) := C; END_TYPE", "P0014"),
+    ("enum-init-of-undeclared-type/fb", "FUNCTION_BLOCK F VAR lv : LOGLEVEL := CRITICAL; END_VAR END_FUNCTION_BLOCK", "P0012"),
+    ("enum-init-of-undeclared-type/program", "PROGRAM F VAR lv : LOGLEVEL := CRITICAL; END_VAR END_PROGRAM", "P0012"),
+    ("enum-init-of-undeclared-type/function", "FUNCTION F : INT VAR lv : LOGLEVEL := CRITICAL; END_VAR F := 1; END_FUNCTION", "P0012"),
+    ("enum-value-undeclared", "TYPE L : (A, B); END_TYPE FUNCTION_BLOCK F VAR v : L := Z; END_VAR END_FUNCTION_BLOCK", "P0014"),
+    ("undeclared-variable", "FUNCTION_BLOCK F VAR x : INT; END_VAR y := 1; END_FUNCTION_BLOCK", "P0015"),
+    ("undeclared-variable/no-declarations", "FUNCTION_BLOCK F y := 1; END_FUNCTION_BLOCK", "P0015"),
+    ("undeclared-variable/program", "PROGRAM F y := 1; END_PROGRAM", "P0015"),
+    ("undeclared-variable/read", "PROGRAM F VAR x : INT; END_VAR x := y; END_PROGRAM", "P0015"),
+    ("subrange-inverted", "TYPE R : INT(10..1); END_TYPE", "P0004"),
+    ("array-inverted/type", "TYPE A : ARRAY[3..1] OF INT; END_TYPE", "P0004"),
+    ("array-inverted/variable", "FUNCTION_BLOCK F VAR a : ARRAY[3..1] OF INT; END_VAR END_FUNCTION_BLOCK", "P0004"),
+    ("array-inverted/variable-second-dimension", "FUNCTION_BLOCK F VAR a : ARRAY[1..4, 8..2] OF INT; END_VAR END_FUNCTION_BLOCK", "P0004"),
+    ("array-inverted/program-variable", "PROGRAM F VAR a : ARRAY[1..4, 8..2] OF INT; END_VAR END_PROGRAM", "P0004"),
+    ("array-inverted/function-input", "FUNCTION F : INT VAR_INPUT a : ARRAY[8..2] OF INT; END_VAR F := 1; END_FUNCTION", "P0004"),
+    ("array-inverted/structure-element", "TYPE S : STRUCT a : ARRAY[1..4, 8..2] OF INT; END_STRUCT; END_TYPE", "P0004"),
+    ("subrange-inverted/structure-element", "TYPE S : STRUCT a : INT(5..1); END_STRUCT; END_TYPE", "P0004"),
+    ("constant-without-initial-value", "FUNCTION_BLOCK F VAR CONSTANT c : INT; END_VAR END_FUNCTION_BLOCK", "P0016"),
+    ("constant-function-block-instance", "FUNCTION_BLOCK C END_FUNCTION_BLOCK FUNCTION_BLOCK F VAR CONSTANT i : C; END_VAR END_FUNCTION_BLOCK", "P0017"),
+    ("variable-of-unknown-type", "FUNCTION_BLOCK F VAR x : UNKNOWN_T; END_VAR END_FUNCTION_BLOCK", "P0022"),
+    ("type-cycle/two", "TYPE A : B; B : A; END_TYPE", "P0010"),
+    ("type-cycle/self", "TYPE A : A; END_TYPE", "P0010"),
+    ("function-block-contains-itself", "FUNCTION_BLOCK F VAR i : F; END_VAR END_FUNCTION_BLOCK", "P0010"),
+    ("duplicate-enumeration-value", "TYPE E : (A, A); END_TYPE", "P0005"),
+    ("duplicate-structure-element", "TYPE S : STRUCT a : INT; a : INT; END_STRUCT; END_TYPE", "P0003"),
+    ("positional-argument-count", "FUNCTION_BLOCK C VAR_INPUT a : INT; END_VAR END_FUNCTION_BLOCK FUNCTION_BLOCK F VAR i : C; END_VAR i(1, 2); END_FUNCTION_BLOCK", "P0008"),
+    ("named-unknown-input", "FUNCTION_BLOCK C VAR_INPUT a : INT; END_VAR END_FUNCTION_BLOCK FUNCTION_BLOCK F VAR i : C; END_VAR i(zz := 1); END_FUNCTION_BLOCK", "P0007"),
+    ("mixed-named-and-positional", "FUNCTION_BLOCK C VAR_INPUT a : INT; b : INT; END_VAR END_FUNCTION_BLOCK FUNCTION_BLOCK F VAR i : C; END_VAR i(a := 1, 2); END_FUNCTION_BLOCK", "P0006"),
+    ("invocation-of-undeclared-instance", "FUNCTION_BLOCK F i(); END_FUNCTION_BLOCK", "P0021"),
+    ("invocation-of-a-variable-that-is-no-instance", "FUNCTION_BLOCK F VAR i : INT; END_VAR i(); END_FUNCTION_BLOCK", "P0021"),
+    ("task-undeclared", "CONFIGURATION c RESOURCE r ON PLC PROGRAM p WITH t : Prog; END_RESOURCE END_CONFIGURATION PROGRAM Prog END_PROGRAM", "P0011"),
+    ("external-of-constant-global-not-constant", "CONFIGURATION c VAR_GLOBAL CONSTANT g : INT := 1; END_VAR RESOURCE r ON PLC PROGRAM p : Prog; END_RESOURCE END_CONFIGURATION PROGRAM Prog VAR_EXTERNAL g : INT; END_VAR END_PROGRAM", "P0018"),
+    ("valid/empty-function-block", "FUNCTION_BLOCK F END_FUNCTION_BLOCK", ""),
+    ("valid/empty-program", "PROGRAM P END_PROGRAM", ""),
+    ("valid/function", "FUNCTION F : INT F := 1; END_FUNCTION", ""),
+    ("valid/one-enumeration", "TYPE L : (A, B) := A; END_TYPE", ""),
+    ("valid/one-subrange", "TYPE R : INT(1..10); END_TYPE", ""),
+    ("valid/one-array-variable", "FUNCTION_BLOCK F VAR a : ARRAY[1..4, 2..8] OF INT; END_VAR END_FUNCTION_BLOCK", ""),
+    ("valid/one-constant", "FUNCTION_BLOCK F VAR CONSTANT c : INT := 1; END_VAR END_FUNCTION_BLOCK", ""),
+    ("valid/one-invocation", "FUNCTION_BLOCK C VAR_INPUT a : INT; END_VAR END_FUNCTION_BLOCK FUNCTION_BLOCK F VAR i : C; END_VAR i(1); i(a := 2); i(); END_FUNCTION_BLOCK", ""),
+    ("valid/one-configuration", "CONFIGURATION c RESOURCE r ON PLC TASK t(INTERVAL := T#100ms, PRIORITY := 1); PROGRAM p WITH t : Prog; END_RESOURCE END_CONFIGURATION PROGRAM Prog END_PROGRAM", ""),
+    ("valid/external-of-constant-global", "CONFIGURATION c VAR_GLOBAL CONSTANT g : INT := 1; END_VAR RESOURCE r ON PLC PROGRAM p : Prog; END_RESOURCE END_CONFIGURATION PROGRAM Prog VAR_EXTERNAL CONSTANT g : INT; END_VAR END_PROGRAM", ""),
+];
+
+fn minimal_units(ctx: &mut Ctx) {
+    // each unit as written, in lower case, and after an unrelated valid declaration
+    let mut n = 0u64;
+    for (name, text, expect) in MINIMAL_UNITS {
+        for (sname, spelled) in [("as-written", text.to_string()), ("lower-case", text.to_lowercase()), ("after-an-unrelated-function", format!("FUNCTION Unrelated : INT Unrelated := 1; END_FUNCTION {}", text))] {
+            n += 1;
+            ctx.evaluations += 1;
+            ctx.transitions += 1;
+            ctx.distinct(&format!("minimal|{}|{}", name, sname));
+            let (verdict, _) = front::check_texts(&[&spelled]);
+            let codes = verdict.codes();
+            let ok = match (&verdict, expect.is_empty()) {
+                (front::Verdict::Panic(_), _) => false,
+                (_, true) => codes.is_empty(),
+                (_, false) => codes.contains(*expect),
+            };
+            ctx.outcome(if !ok { "minimal unit: disagrees" } else if expect.is_empty() { "minimal unit: valid unit accepted" } else { "minimal unit: fault diagnosed with its code" });
+            if !ok {
+                ctx.fail(
+                    &format!("minimal/{}/{}#{}", name, sname, verdict.short()),
+                    &format!("`{}`: expected {}, reported {}", spelled, if expect.is_empty() { "no diagnostic" } else { expect }, verdict.short()),
+                    json!({"mode":"minimal","text": spelled, "expect": expect}),
+                );
+            }
+        }
+    }
+    ctx.bounds.insert("minimal_units".into(), json!(format!("{} units x 3 spellings = {} programs that hold nothing but the construct one rule is about", MINIMAL_UNITS.len(), n)));
+}
+
 pub fn replay(case: &Value) -> Result<String, String> {
+    if case["mode"] == json!("minimal") {
+        let text = case["text"].as_str().ok_or("text")?;
+        let expect = case["expect"].as_str().unwrap_or("");
+        let (v, _) = front::check_texts(&[text]);
+        let ok = if expect.is_empty() { v.is_ok() } else { v.codes().contains(expect) };
+        return if ok { Ok(format!("verdict {}", v.short())) } else { Err(format!("expected {}, reported {}", if expect.is_empty() { "no diagnostic" } else { expect }, v.short())) };
+    }
     if case["mode"] == json!("scale") {
         let r = SCALE_RULES.iter().find(|x| Some(**x) == case["rule"].as_str()).ok_or("rule")?;
         let (text, expect) = scale_case(r, case["n"].as_u64().ok_or("n")? as usize, case["k"].as_u64().map(|x| x as usize));
@@ -362,6 +447,36 @@ fn label_problems(w: &World) -> Vec<(String, String)> {
             out.push((format!("{}/primary-label-not-on-the-first-instance", dg.code), format!("label {}..{} ({:?}) of {}: the same name is written earlier in the list", s, e, crate::util::short(&text[s..e], 20), dg.code)));
         } else if !boundaries.contains(&s) || !boundaries.contains(&e) {
             out.push((format!("{}/primary-label-splits-a-lexeme", dg.code), format!("label {}..{} ({:?}) of {} does not begin and end on lexeme boundaries", s, e, crate::util::short(&text[s..e], 20), dg.code)));
+        } else {
+            // "covers the spelling of the construct the message talks about": when the message names
+            // a variable (`variable=Limit`) that is written in the faulty declaration, one of the labels
+            // covers that spelling
+            let decl = ranges.iter().find(|(a, b, _, _)| *a <= s && e <= *b).map(|r| text[r.0..r.1].to_lowercase()).unwrap_or_default();
+            let words: Vec<&str> = decl.split(|c: char| !(c.is_ascii_alphanumeric() || c == '_')).collect();
+            let named: Vec<String> = dg
+                .described
+                .iter()
+                // a message may also name things that are not where the fault is (the type of an instance, a count):
+                // only the variable it is about is demanded
+                .filter_map(|d| d.split_once('=').filter(|(k, _)| k.trim().eq_ignore_ascii_case("variable")).map(|(_, v)| v.trim().to_lowercase()))
+                .filter(|v| !v.is_empty() && words.contains(&v.as_str()))
+                .collect();
+            if !named.is_empty() {
+                let mut covered = vec![text[s..e].to_lowercase()];
+                for sl in &dg.secondary {
+                    let (a, b) = (sl.location.start, sl.location.end);
+                    if a <= b && b <= text.len() && text.is_char_boundary(a) && text.is_char_boundary(b) {
+                        covered.push(text[a..b].to_lowercase());
+                    }
+                }
+                let hit = named.iter().any(|v| covered.iter().any(|c| c.split(|ch: char| !(ch.is_ascii_alphanumeric() || ch == '_')).any(|w| w == v)));
+                if !hit {
+                    out.push((
+                        format!("{}/no-label-covers-what-the-message-names", dg.code),
+                        format!("{} names {:?}, written in the faulty declaration, but its labels cover {:?}", dg.code, named, covered),
+                    ));
+                }
+            }
         }
     }
     out
